@@ -122,6 +122,33 @@ struct Both5 {
     c: Vec<G<L3>>,
 }
 
+// several free type parameters next to a concrete one; duplicate TypeScript keys; concrete + default
+#[derive(TS)]
+#[ts(concrete(C = L1))]
+struct Free3<A, B, C, D> {
+    a: A,
+    b: Vec<B>,
+    c: C,
+    d: Option<D>,
+}
+#[derive(TS)]
+struct Dup {
+    #[ts(rename = "x")]
+    first: L1,
+    #[ts(rename = "x")]
+    second: L2,
+    third: L3,
+    fourth: L4,
+    fifth: L5,
+}
+#[derive(TS)]
+#[ts(concrete(U = L2))]
+struct ConcDef<T, U = L3, V = L4> {
+    t: T,
+    u: U,
+    v: V,
+}
+
 /// Root with everything.
 #[derive(TS)]
 struct Root {
@@ -192,6 +219,9 @@ fn main() {
     dump::<Both3>(&mut out);
     dump::<Both4>(&mut out);
     dump::<Both5>(&mut out);
+    dump::<Free3<L1, L2, L1, L3>>(&mut out);
+    dump::<Dup>(&mut out);
+    dump::<ConcDef<L5, L2, L6>>(&mut out);
     dump::<Root>(&mut out);
     dump::<Root2>(&mut out);
     // export in the order a test binary would (alphabetical), everything with dependencies
